@@ -44,6 +44,7 @@ def sqlq(run, p, sh):
                          'from those); slots inside single quotes by text whose quotes were doubled; and each quoting helper doubles its '
                          'own delimiter')
     t = taint.SQLTaint(p, sh)
+    taint.CONST_SOURCE[0] = (p, sh.mod)
     nsites = 0
     for name, f in sorted(sh.methods.items()):
         gm = GuardMap(f.node)
@@ -87,34 +88,34 @@ def _built_in_non_sqlite_arm(t, f, gm, issue):
 
 
 def emptyjoin(run, p, sh):
-    run.rule('C08-EMPTYJOIN', 'a separator.join(X) placed inside parentheses of an SQL template, where X is built from a parameter that '
-                              'may be empty, is dominated by a test that X is non-empty (or has a constant fallback)')
+    run.rule('C08-EMPTYJOIN', 'a list of SQL conditions joined with OR / AND (or a comma list) whose items come from a parameter that may be '
+                              'empty has a constant fallback (`... or \'1 = 0\'`) or is dominated by a test that the list is non-empty - '
+                              'an empty join would leave `NOT()` / `IN ()` in the statement')
+    import re
     n = 0
     for name, f in sorted(sh.methods.items()):
         gm = GuardMap(f.node)
-        for x in p.own_nodes(f):
-            if isinstance(x, ast.BinOp) and isinstance(x.op, ast.Mod) and isinstance(x.left, ast.Constant) and isinstance(x.left.value, str):
-                args = x.right.elts if isinstance(x.right, ast.Tuple) else [x.right]
-                import re
-                slots = [m.start() for m in re.finditer(r'%s', x.left.value)]
-                for pos, a in zip(slots, args):
-                    inparen = pos > 0 and x.left.value[pos - 1] == '(' and x.left.value[pos + 2:pos + 3] == ')'
-                    j = a
-                    fallback = False
-                    if isinstance(j, ast.BoolOp) and isinstance(j.op, ast.Or):
-                        fallback = any(isinstance(v, ast.Constant) and v.value for v in j.values[1:])
-                        j = j.values[0]
-                    if inparen and isinstance(j, ast.Call) and isinstance(j.func, ast.Attribute) and j.func.attr == 'join':
-                        n += 1
-                        src = names_in(j.args[0]) if j.args else set()
-                        clo = dep_closure(f.node, src)
-                        params = clo & set(f.params)
-                        ch = gm.chain(x) or ()
-                        tested = any(g.kind == 'if' and (names_in(g.test) & (src | params)) and 'is None' not in ast.unparse(g.test)
-                                     for g in ch)
-                        run.ob('C08-EMPTYJOIN', '%s::%s::%s' % (f.rel, f.short, norm(j)[:40]), tested or fallback,
-                               '(%s) in %s: %s' % (norm(j)[:40], f.short, 'guarded against an empty list' if (tested or fallback)
-                                                   else 'an empty %s gives the invalid SQL `()`' % sorted(params or src)), fn=f, node=j)
+        parents = {}
+        for x in ast.walk(f.node):
+            for ch in ast.iter_child_nodes(x):
+                parents[id(ch)] = x
+        for j in p.own_nodes(f):
+            if not (isinstance(j, ast.Call) and isinstance(j.func, ast.Attribute) and j.func.attr == 'join' and
+                    isinstance(j.func.value, ast.Constant) and isinstance(j.func.value.value, str) and
+                    re.search(r'\b(OR|AND)\b', j.func.value.value)):
+                continue
+            n += 1
+            par = parents.get(id(j))
+            fallback = isinstance(par, ast.BoolOp) and isinstance(par.op, ast.Or) and par.values[0] is j and \
+                any(isinstance(v, ast.Constant) and v.value for v in par.values[1:])
+            src = names_in(j.args[0]) if j.args else set()
+            clo = dep_closure(f.node, src)
+            params = clo & set(f.params)
+            ch = gm.chain(j) or ()
+            tested = any(g.kind == 'if' and (names_in(g.test) & (src | params)) and 'is None' not in ast.unparse(g.test) for g in ch)
+            run.ob('C08-EMPTYJOIN', '%s::%s::%s' % (f.rel, f.short, norm(j)[:40]), tested or fallback,
+                   '%s in %s: %s' % (norm(j)[:40], f.short, 'guarded against an empty list' if (tested or fallback)
+                                     else 'an empty %s leaves an empty condition in the SQL' % sorted(params or src)), fn=f, node=j)
     run.floor('C08-EMPTYJOIN', n, 1)
 
 
@@ -154,7 +155,8 @@ def exc(run, p, sh):
                     if g.kind == 'try':
                         ok = ok or any(h.type is None or 'ValueError' in ast.unparse(h.type) or 'Exception' in ast.unparse(h.type)
                                        for h in g.test.handlers)
-                run.ob('C08-EXC', '%s::%s::%s' % (f.rel, f.short, norm(x)[:40]), ok,
+                site = '%s(%s)' % (norm(x.func).split('.')[-1], norm(x.args[0])[:30] if x.args else '')
+                run.ob('C08-EXC', '%s::%s::%s' % (f.rel, f.short, site), ok,
                        '%s in %s %s' % (norm(x)[:50], f.short, 'is guarded' if ok else 'raises ValueError for any other stored date text'), fn=f, node=x)
     run.floor('C08-EXC', n, 2)
 
